@@ -20,6 +20,75 @@ from ..engines.linform import canon
 from ._common import dim_generic
 
 
+def _stabiliser(model, rep):
+    """the operations whose tensor bases are intersected for a jump (generateJumpSymmTensorBasis) are the operations that
+    generateJumpGroupOps would accept as mapping the representative jump onto *itself*: same predicate with the member set
+    to the representative -- including the branch for the reversed jump -- over the same set of operations.  (Sites:
+    generateSiteSymmTensorBasis takes crys.SymmTensorBasis of the representative that generateSiteGroupOps maps from.)"""
+    from ..model import Model
+    from ..engines.linform import canon, rename
+    rep.rule('stabiliser-matches-transport', 'the jump tensor basis is intersected over exactly the operations that map the representative '
+                                             'jump onto itself or onto its reverse, as the transporting operations are chosen')
+    nm = model.normal()      # temporaries written out, tuple assignments split, trailing ifs turned into guards
+    mod = nm.mod('OnsagerCalc')
+    ci = nm.cls('OnsagerCalc', 'Interstitial')
+    ops, bas = ci.methods['generateJumpGroupOps'], ci.methods['generateJumpSymmTensorBasis']
+
+    def rep_binding(fn):
+        for n in walk_local(fn):
+            if isinstance(n, ast.Assign) and isinstance(n.targets[0], ast.Tuple) and isinstance(n.value, ast.Subscript) \
+                    and unparse(n.value.slice) == '0' and len(n.targets[0].elts) == 2 and isinstance(n.targets[0].elts[0], ast.Tuple):
+                (a, b), c = n.targets[0].elts[0].elts, n.targets[0].elts[1]
+                return unparse(a), unparse(b), unparse(c)
+        return None
+    r_ops, r_bas = rep_binding(ops), rep_binding(bas)
+    if r_ops is None or r_bas is None:
+        raise AnalysisError('generateJumpGroupOps / generateJumpSymmTensorBasis: binding of the representative jump not found')
+    # predicate and domain in the transport routine: the condition holding where an operation is appended, inside `for g in <domain>`
+    from ._common import conditions_at
+    app = [c for c in walk_local(ops) if isinstance(c, ast.Call) and isinstance(c.func, ast.Attribute) and c.func.attr == 'append'
+           and len(c.args) == 1 and isinstance(c.args[0], ast.Name)]
+    pred_ops = dom_ops = member = gname = None
+    for c in app:
+        g_ = c.args[0].id
+        p = getattr(c, '_parent', None)
+        while p is not None and p is not ops:
+            if isinstance(p, ast.For) and unparse(p.target) == g_ and dom_ops is None:
+                dom_ops, gname = unparse(p.iter), g_
+                conds = [t for t in conditions_at(ops, c) if 'cartrot' in t]
+                if len(conds) == 1:
+                    pred_ops = ast.parse(conds[0], mode='eval').body
+            elif isinstance(p, ast.For) and dom_ops is not None and member is None and isinstance(p.target, ast.Tuple) and len(p.target.elts) == 2 \
+                    and isinstance(p.target.elts[0], ast.Tuple):
+                (a, b), cc = p.target.elts[0].elts, p.target.elts[1]
+                member = (unparse(a), unparse(b), unparse(cc))
+            p = getattr(p, '_parent', None)
+    comp = [c for c in walk_local(bas) if isinstance(c, (ast.ListComp, ast.GeneratorExp)) and c.generators[0].ifs
+            and 'cartrot' in ' '.join(unparse(t) for t in c.generators[0].ifs)]
+    if pred_ops is None or member is None or len(comp) != 1:
+        raise AnalysisError('generateJumpGroupOps / generateJumpSymmTensorBasis: selection predicates not found')
+    gen = comp[0].generators[0]
+    gb = unparse(gen.target)
+    pred_bas = gen.ifs[0] if len(gen.ifs) == 1 else ast.BoolOp(op=ast.And(), values=list(gen.ifs))
+    sigma = {r_ops[0]: r_bas[0], r_ops[1]: r_bas[1], r_ops[2]: r_bas[2], member[0]: r_bas[0], member[1]: r_bas[1], member[2]: r_bas[2], gname: gb}
+    want = canon(rename(pred_ops, sigma))
+    got = canon(rename(pred_bas, {}))
+    okd = unparse(gen.iter) == dom_ops
+    ok = want == got and okd
+    rep.ob('stabiliser-matches-transport', mod, comp[0], 'basis intersected over {g in %s : %s}' % (unparse(gen.iter), unparse(pred_bas)[:120]), ok,
+           '' if ok else 'the operations used for the symmetric tensor basis of a jump are not those that generateJumpGroupOps accepts as '
+           'mapping the representative jump onto itself or its reverse (%s over %s): the projection keeps components that symmetry forbids, '
+           'or drops allowed ones' % ('other predicate' if want != got else 'same predicate', 'another set of operations' if not okd else 'the same operations'),
+           engine='siblings', qual='Interstitial.generateJumpSymmTensorBasis')
+    # sites: representative of the basis = representative the transporting operations start from
+    sb, so = ci.methods['generateSiteSymmTensorBasis'], ci.methods['generateSiteGroupOps']
+    calls = [c for c in walk_local(sb) if isinstance(c, ast.Call) and unparse(c.func) == 'self.crys.SymmTensorBasis' and len(c.args) == 1]
+    okb = len(calls) == 1 and isinstance(calls[0].args[0], ast.Tuple) and unparse(calls[0].args[0].elts[0]) == 'self.chem' \
+        and unparse(calls[0].args[0].elts[1]).endswith('[0]') and 'self.sitelist' in unparse(sb)
+    rep.ob('stabiliser-matches-transport', mod, sb, 'site basis = crys.SymmTensorBasis of the first member of each Wyckoff set', okb,
+           '' if okb else 'the site tensor basis is not that of the representative site', engine='siblings', qual='Interstitial.generateSiteSymmTensorBasis')
+
+
 def run(model, rep, tier):
     rep.explanation = __doc__.strip()
     from ._common import caches_for
@@ -36,6 +105,7 @@ def run(model, rep, tier):
     for m in need:
         if m not in ci.methods:
             raise AnalysisError('anchor vanished: Interstitial.%s' % m)
+    _stabiliser(model, rep)
     # ---- siteDipoles
     sd = ci.methods['siteDipoles']
     p = sd.args.args[1].arg
@@ -247,6 +317,8 @@ def run(model, rep, tier):
 
 OC = 'onsager/OnsagerCalc.py'
 BREAKERS = [
+    ('onsager/OnsagerCalc.py', "                               np.allclose(dx, np.dot(g.cartrot, dx), atol=self.threshold)) or\n                               (g.indexmap[self.chem][i] == j and\n                                g.indexmap[self.chem][j] == i and\n                                np.allclose(dx, -np.dot(g.cartrot, dx), atol=self.threshold))]))",
+     "                               np.allclose(dx, np.dot(g.cartrot, dx), atol=self.threshold))]))", 'stabiliser-matches-transport'),
     (OC, "            symmdipole = crystal.ProjectTensorBasis(dipole, basis)\n", "            symmdipole = dipole\n", 'project-then-transport'),
     (OC, "                lis[i] = self.crys.g_tensor(g, symmdipole)", "                lis[i] = self.crys.g_tensor(g, dipole)", 'project-then-transport'),
     (OC, "for dipole, basis, sites, groupops in zip(dipoles, self.siteSymmTensorBasis,\n                                                  self.sitelist, self.sitegroupops):",
